@@ -6,10 +6,16 @@ import vlib
 
 META = {
     "category": "proof",
-    "text": "Coq theorems: (routing) for every server configuration, lookup function, registry and server name the "
-            "decision of hostConn + Server.dial dials an endpoint exactly when the name passes isRejectedDomain, the "
-            "lookup answers a plain destination and the registry holds that destination's name - at most one endpoint, "
-            "none for empty/IP/suffix-rejected/refused/unconnected names; (concurrency) for every sequence of whole "
+    "text": "Coq theorems: (routing) for every server configuration, lookup function (all four result shapes: destination or "
+            "nil x error or nil), registry and server name the decision of hostConn + Server.dial - both emitted "
+            "statement by statement with their conditions and return expressions, run by an interpreter and proved "
+            "equal to the closed form - dials an endpoint exactly when the name passes isRejectedDomain, the "
+            "lookup answers a plain destination without error and the registry holds that destination's name - at most "
+            "one endpoint, none for empty/IP/suffix-rejected/refused/unconnected names; for every emitted statement list "
+            "in which the lookup is followed by a guard that fires whenever err != nil, a name whose lookup returns an "
+            "error (with or without a destination) is refused; no result shape crashes; every return of hostConn "
+            "before the join closes the front connection and bytes flow only after a successful dial of the selected "
+            "destination; (concurrency) for every sequence of whole "
             "operations of any number of goroutines on the session-id counter, the side-dial mail office and the "
             "endpoint's session table, including deliveries with arbitrary ids and keys: ids are unique, a connection "
             "leaves a box only if delivered under that box's id and key, honest deliveries are never crossed, cleanUp "
@@ -18,7 +24,10 @@ META = {
             "isRejectedDomain, the suffix table, the statement order of hostConn and Server.dial and 20 function bodies "
             "are regenerated from /repo on every run; the models are tied to the code by differential runs evaluated in "
             "Coq; an end-to-end run with 2-6 endpoints and up to 64 concurrent tagged connections in each of the three "
-            "tunnel modes searches for a mis-delivered byte.",
+            "tunnel modes searches for a mis-delivered byte, and an end-to-end refusal stream drives every error return "
+            "of hostConn (unsniffable hello, rejected name, each lookup shape, no lookup, home/forward failures, "
+            "endpoint not connected, side token / side connection failures) and requires the front connection closed "
+            "with nothing received and nothing accepted or read at any endpoint.",
     "note": "Trusted: Coq kernel + vm_compute; translator gen/sni_stream.go; harness c02 + sniproxy/verif_stream.go shim; "
             "the mutexes of sessionID/connMailOffice/connections make each method atomic (read off the frozen bodies, "
             "not proved); net.ParseIP is a parameter whose real value is supplied per case; the 64-bit random key is an "
@@ -33,7 +42,7 @@ PROOFS = ["theories/Props/C02.vo"]
 STATEMENT_FILES = ["theories/Props/C02.v", "theories/Sni/RouteGen.v"]
 SEMANTIC_TIE = code_tie.functions("C02")   # Go bodies proved equal to the model (Props/C02Code.v)
 
-CODE = {"nolookup": 1, "err": 2, "home": 3, "notfound": 5, "forward": 6, "endpoint": 7}
+CODE = {"nolookup": 1, "err": 2, "home": 3, "notfound": 5, "forward": 6, "endpoint": 7, "panic": 8, "nilconn": 10}
 
 
 def hexlist(h):
@@ -52,11 +61,9 @@ def cbool(b):
 def route_term(r):
     table = []
     for e in r["table"]:
-        if e.get("err"):
-            table.append("(%s, None)" % hexlist(e["domain"]))
-        else:
-            table.append("(%s, Some (mkDest %s %s %s))" % (hexlist(e["domain"]), hexlist(e.get("name")),
-                                                          cbool(e.get("home")), hexlist(e.get("forward"))))
+        dest = "None" if e.get("nodest") else "(Some (mkDest %s %s %s))" % (
+            hexlist(e.get("name")), cbool(e.get("home")), hexlist(e.get("forward")))
+        table.append("(%s, mkLk %s %s)" % (hexlist(e["domain"]), dest, cbool(e.get("err"))))
     code = CODE.get(r.get("decision", ""), 9) if r["dialed"] else 0
     arg = r.get("decision_arg") if code in (6, 7) else ""
     return "RcRoute %s [%s] %s [%s] %s %s %s %s %d %s" % (
@@ -124,6 +131,26 @@ def addr_terms(e):
     return out
 
 
+def front_terms(g):
+    out = []
+    for o in g.get("obs") or []:
+        e = o.get("entry")
+        if e is None:
+            lk = "(mkLk None true)"
+        else:
+            dest = "None" if e.get("nodest") else "(Some (mkDest %s %s %s))" % (
+                hexlist(e.get("name")), cbool(e.get("home")), hexlist(e.get("forward")))
+            lk = "(mkLk %s %s)" % (dest, cbool(e.get("err")))
+        joined = o["expect"] != "refused" and o["reply"].startswith("EP ")
+        if o["expect"] == "refused":
+            joined = bool(o["accepted"] or o["bytes"] or o["got"])
+        out.append("RcFront %s %s %s [%s] %s %s %s %s %s %s" % (
+            cbool(o["has_lookup"]), lk, cbool(o["has_home"]), "; ".join(hexlist(x) for x in o["endpoints"]),
+            cbool(o["sniff_ok"]), hexlist(o.get("name")), cbool(o["is_ip"]), cbool(o["dial_ok"]),
+            cbool(joined), cbool(o["end"] == "closed")))
+    return out
+
+
 def to_coq(c):
     s = c["stream"]
     if c.get("crash"):
@@ -142,6 +169,8 @@ def to_coq(c):
         return ["RcIds %d [%s]" % (len(ids), "; ".join(str(x) for x in ids))]
     if s == "e2e":
         return addr_terms(c["e2e"])
+    if s == "refuse":
+        return front_terms(c["refuse"])
     if s == "regen":
         return [office_term(c["regen"]["office"])]
     if s == "race":
@@ -169,9 +198,24 @@ def oracle_route(r):
         return ("wrong-addr-to-dialer", "dialer got address %r for a connection from %r" % (r["dial_addr"], r["front_addr"]))
     entry = next((e for e in r["table"] if e["domain"] == r["sni"]), None)
     d = r["decision"]
+    shape = "no lookup configured" if not r["has_lookup"] else lookup_shape(entry)
+    if d == "panic":
+        return ("dial-crash:" + shape_key(r, entry),
+                "Server.dial panicked for the name %r (lookup result: %s): %s - in the server the connection goroutine "
+                "has no recover, so the whole proxy process ends"
+                % (sni, shape, bytes.fromhex(r.get("decision_arg", "")).decode("latin1")))
+    if d == "nilconn":
+        return ("dial-nil-conn:" + shape_key(r, entry),
+                "Server.dial returned neither a connection nor an error for the name %r (lookup result: %s)" % (sni, shape))
     if not r["has_lookup"] or entry is None or entry.get("err"):
         if d in ("endpoint", "home", "forward"):
-            return ("refused-name-routed", "name %r has no destination but was routed: %s" % (sni, d))
+            return ("refused-name-routed", "the lookup refuses the name %r (lookup result: %s) but the connection was "
+                    "routed: %s %r" % (sni, shape, d, bytes.fromhex(r.get("decision_arg", ""))))
+        return None
+    if entry.get("nodest"):
+        if d in ("endpoint", "home", "forward"):
+            return ("no-destination-routed", "the lookup has no destination for the name %r (lookup result: %s) but the "
+                    "connection was routed: %s" % (sni, shape, d))
         return None
     if d == "endpoint":
         if r["decision_arg"] != entry.get("name", "") or r["decision_arg"] not in r["endpoints"] \
@@ -183,6 +227,22 @@ def oracle_route(r):
             return ("endpoint-not-dialled", "name %r maps to connected endpoint %r but it was not dialled" % (
                 sni, bytes.fromhex(entry["name"])))
     return None
+
+
+def lookup_shape(entry):
+    if entry is None:
+        return "(nil, error) - name not in the table"
+    dest = "nil" if entry.get("nodest") else "Dest{Name:%r Home:%s ForwardTCP:%r}" % (
+        bytes.fromhex(entry.get("name", "")), bool(entry.get("home")), bytes.fromhex(entry.get("forward", "")))
+    return "(%s, %s)" % (dest, "error" if entry.get("err") else "nil")
+
+
+def shape_key(r, entry):
+    if not r["has_lookup"]:
+        return "no-lookup"
+    if entry is None:
+        return "nil-err"
+    return ("nil" if entry.get("nodest") else "dest") + "-" + ("err" if entry.get("err") else "nil")
 
 
 def oracle_office(ops):
@@ -277,6 +337,32 @@ def oracle_regen(g):
     return None
 
 
+def oracle_refuse(g):
+    """every error return of hostConn before the join: closed, nothing back, nothing at any endpoint"""
+    if g.get("setup_err"):
+        return ("refuse-setup", "could not start the proxy world: %s" % g["setup_err"])
+    for o in g["obs"]:
+        sc = "%s mode, world %s, scenario %s" % (g["mode"], o["world"], o["scenario"])
+        if o["expect"] == "refused":
+            if o["accepted"] or o["bytes"]:
+                return ("refuse:reached-endpoint:" + o["scenario"],
+                        "%s: the connection must be refused but %d connection(s) were accepted and %d byte(s) read at "
+                        "the endpoints (%s)" % (sc, o["accepted"], o["bytes"], o.get("where", "")))
+            if o["got"]:
+                return ("refuse:answered:" + o["scenario"], "%s: the client received %d byte(s)" % (sc, o["got"]))
+            if o["end"] != "closed":
+                return ("refuse:not-closed:" + o["scenario"], "%s: the front connection was not closed (%s)" % (sc, o["end"]))
+        else:
+            if not o["reply"].startswith("EP %s GOT T-" % o["expect"]):
+                return ("refuse:control-not-served:" + o["scenario"],
+                        "%s: must be served by %s after/between the refusals, got %r (%s)" % (sc, o["expect"], o["reply"], o["end"]))
+            if o["accepted"] != 1:
+                return ("refuse:control-accepted-count:" + o["scenario"],
+                        "%s: %d connections accepted at the endpoints for one served connection (%s)"
+                        % (sc, o["accepted"], o.get("where", "")))
+    return None
+
+
 def impl_oracle(c):
     if c.get("crash"):
         return ("crash", "the code under test crashed: %s" % c["crash"][:300])
@@ -300,6 +386,8 @@ def impl_oracle(c):
         return oracle_ids(c["ids"])
     if s == "e2e":
         return oracle_e2e(c["e2e"])
+    if s == "refuse":
+        return oracle_refuse(c["refuse"])
     return None
 
 
@@ -353,6 +441,10 @@ def run(ck):
             ck.count("e2e-" + e["mode"], key=("e2e", c["i"], e["mode"], e["endpoints"], e["conns"]), trivial=e["conns"] == 0)
             ck.coverage["e2e_connections"] = ck.coverage.get("e2e_connections", 0) + e["conns"]
             ck.coverage["e2e_bytes_echoed"] = ck.coverage.get("e2e_bytes_echoed", 0) + e["echoed"]
+        elif s == "refuse" and c.get("refuse"):
+            for o in c["refuse"]["obs"]:
+                ck.count("refuse-" + c["refuse"]["mode"], key=("refuse", c["refuse"]["mode"], o["world"], o["scenario"]),
+                         trivial=False)
         else:
             body = c.get(s)
             ck.count(s, key=json.dumps(body, sort_keys=True), trivial=not body)
@@ -411,12 +503,15 @@ def run(ck):
         checker_cmd="bin/check C02 (gen -> make -C coq theories/Props/C02.vo -> Print Assumptions audit -> "
                     "harness c02 vs vm_compute of Sni/RouteCorr.v + e2e oracle)",
         trusted=["Coq 8.16.1 kernel + vm_compute",
-                 "translator gen/sni_stream.go (isRejectedDomain steps, suffix table, hostConn/Server.dial order, bodies)",
+                 "translator gen/sni_stream.go (isRejectedDomain, hostConn and Server.dial statements with conditions and "
+                 "return expressions, suffix table, bodies)",
                  "harness/cmd/c02 + harness/cmd/c01/e2e + sniproxy/verif_stream.go + checks/c02.py comparison",
                  "modelled not verified: sync.Mutex atomicity of the three tables, Go select, net.ParseIP (parameter)"],
         rule="seeded generation (splitmix64): route = a real ClientHello through hostConn into Server.dial over a name "
              "battery (empty, IPv4/IPv6 literal forms, each rejected suffix +- one character, arbitrary bytes, mapped/"
-             "unmapped/refused names) x random server configurations; office = random interleavings of dial programs "
+             "unmapped/refused names) x random server configurations x the four lookup result shapes (fixed cases first); "
+             "refuse = 32 end-to-end refusal/control scenarios per tunnel mode in three proxy worlds, each also evaluated "
+             "by the emitted hostConn + Server.dial in Coq; office = random interleavings of dial programs "
              "with wrong-key/wrong-id/stale/duplicate deliveries; conns = random add/get/remove/shutdown; ids = "
              "concurrent next(); e2e = rounds of 8/24/64 concurrent tagged connections to 2-6 endpoints per tunnel mode; "
              "non-trivial unless the operation list is empty; distinct = distinct case bodies",
